@@ -36,6 +36,8 @@ def cut(rnd, data, mode=None):
     out, p = [], 0
     while p < len(data):
         k = rnd.choice([1, 2, 3, 4, 5, 7, 16, 64]) if mode == 'small' else rnd.randint(1, max(1, len(data) // 2))
+        if rnd.random() < 0.12:
+            out.append([])                # an empty DATA frame (two cut points coincide)
         out.append(list(data[p:p + k]))
         p += k
     return out
